@@ -91,6 +91,9 @@ int write_hex(Memory *memory, FILE *out)
         len = -1;
       }
 
+      // Nothing was ever written to this page, skip to its last address.
+      if (!memory->in_use(n)) { n |= memory->get_page_size() - 1; }
+
       continue;
     }
 
